@@ -34,6 +34,13 @@ def run(ck):
     ck.mc("MCStrNode", "C11_mc.cfg", workers=8, xmx="8g", timeout=1800)
     for m in MUTS:
         ck.mc_must_fail("MCStrNode", "C11_asfound_%s.cfg" % m, workers=4, timeout=600)
+    # every requested length in 0..SIZE_MAX (the length bookkeeping over the integers, real constants): an inductive invariant checked
+    # by Apalache - writes stay inside the storage in use, the int the accessor returns is the count; the constructor without the
+    # INT_MAX cap (json-c as found, D11a) must break it
+    ck.prove("StrNodeInd", "CInit", "Init", "IndInv", 0)
+    ck.prove("StrNodeInd", "CInit", "IndInv", "IndInv", 1)
+    ck.prove("StrNodeInd", "CInit", "IndInv", "Safety", 0)
+    ck.prove("StrNodeInd", "CInitBad", "IndInv", "IndInv", 1, must_fail=True)
     exe = vlib.build("san", vlib.harness_sources(), "vh")
     hists, r = vlib.tlc_export_edges("GStrNode", "C11_g.cfg", timeout=1800, xmx="8g")
     ck.add_tlc(r)
